@@ -758,6 +758,20 @@ func c14Content(c *fw.C, caseID string) {
 		for i := 0; i < burst; i++ {
 			w.One()
 		}
+		if round%4 == 1 {
+			// a pool well above the per-momentum limit in which several accounts hold long runs of blocks: whatever
+			// is offered must be a prefix of every account's run
+			accepted := 0
+			us := c14Users()
+			for k := 0; k < 26 && len(N.Chain.GetAllUncommittedAccountBlocks()) < 135; k++ {
+				for _, u := range us {
+					if _, err := N.Send(u, us[(k+1)%len(us)].Address, types.ZnnTokenStandard, big.NewInt(int64(1+k)), nil); err == nil {
+						accepted++
+					}
+				}
+			}
+			c.Count("long_runs_pooled_above_the_limit", accepted)
+		}
 		if !c14CheckContent(c, N, "after user burst") {
 			return
 		}
